@@ -2,6 +2,8 @@
    coefficient normalisation of the spectral simulator (src/Simulation/SimuSpectral.cpp).
    Executable definitions only (no proofs).  Z for indices, nat for fuel / structural sizes. *)
 From Coq Require Import List ZArith QArith Bool.
+(* the grid geometry (indices -> coordinates, rotation) is the model of property C16; used qualified, never imported *)
+From Gst Require C16.Model.
 Import ListNotations.
 Local Open Scope Z_scope.
 
@@ -266,7 +268,10 @@ Definition ssum (K : nat) (g : Z -> Q) : Q := sumn (2 * K + 1) (fun i => g (Z.of
 (* CalcSimuFFT.cpp:509-518: cplx[ecr] += coeff * C(lag + k * delta) for k1,k2,k3 in [-kb,kb]; the lag and the shifts are
    counted in grid meshes here: F = covariance as a function of the integer lag VECTOR, p = period of the shifts.
    Current source (:452): delta[i] = DX(i) * _dims[i], i.e. p = the extended dimensions d.
-   Before commit f6d25e5eb: delta[i] = DX(i) * NX(i), i.e. p = the size of the ORIGINAL grid. *)
+   Before commit f6d25e5eb: delta[i] = DX(i) * NX(i), i.e. p = the size of the ORIGINAL grid.
+   NOTE: this is the code on an UNROTATED grid. On a rotated grid the code adds k * delta along the axes of the space, not along the
+   rotated grid axes (k * _dims[j] * xyz1[j]): there it departs from this model (finding CalcSimuFFT:antialiasing-shift-not-rotated of
+   HEAD 81e8ebafa, seen by the second-moment check; candidate repair fft_fix_5.patch makes the code follow this model on every grid). *)
 Definition alias_sum (p d : dims) (F : Z -> Z -> Z -> Q) (Kx Ky Kz : nat) (k : cell) : Q :=
   let '(x, y, z) := k in
   ssum Kx (fun k1 => ssum Ky (fun k2 => ssum Kz (fun k3 =>
@@ -314,3 +319,22 @@ End Spectral.
 
 (* coefficient of the variance: scale^2 * ns * E[gamma^2] * <cos^2> with E[gamma^2] = 1, <cos^2> = 1/2 *)
 Definition spectral_varcoef (scale2 ns : Q) : Q := scale2 * ns * (1 # 2).
+
+(* ------------------------------------------------------------------------------------------------ *)
+(* 8. _prepar: from the (wrapped) grid indices of a cell to the real-space lag, on a possibly rotated grid        *)
+(* ------------------------------------------------------------------------------------------------ *)
+Definition unit_ind (n i : nat) : list Z := map (fun j => if Nat.eqb i j then 1%Z else 0%Z) (seq 0 n).
+Definition zero_ind (n : nat) : list Z := map (fun _ => 0%Z) (seq 0 n).
+
+(* CalcSimuFFT.cpp:438 xyz0 = coordinates of the node (0,0,0); :441-452 xyz1[i] = coordinates of the node e_i, minus xyz0.
+   rankToCoordinatesInPlace(indiceToRank(indg)) is the node of indices indg of the C16 grid model (C16.Model.node: mesh, ROTATION,
+   origin) as long as the grid has at least two nodes along every axis (indg in range). Row j of the result = step along grid axis j. *)
+Definition step_mat (g : C16.Model.grid) (n : nat) : list (list Q) :=
+  map (fun i => C16.Model.vsub (C16.Model.node g (unit_ind n i)) (C16.Model.node g (zero_ind n))) (seq 0 n).
+
+(* CalcSimuFFT.cpp:502-508  xyz[i] = sum_j jnd[j] * xyz1[j][i]   (column i of the step matrix) *)
+Definition lag_of (X1 : list (list Q)) (n : nat) (jnd : list Z) : list Q :=
+  map (fun i => C16.Model.dot (map inject_Z jnd) (C16.Model.col i X1)) (seq 0 n).
+(* the transposed reading  sum_j jnd[j] * xyz1[i][j]  (row i): NOT the code; kept for the regression theorems (seeded change C14_1) *)
+Definition lag_of_transposed (X1 : list (list Q)) (n : nat) (jnd : list Z) : list Q :=
+  map (fun i => C16.Model.dot (map inject_Z jnd) (nth i X1 [])) (seq 0 n).
